@@ -55,3 +55,29 @@ Theorem C15_face_walk_follows_edges : forall vs p vi vi', sort_face_vertices vs 
   dual_has (vd (nth (nth (S k) vi' 0%nat) vs vdefault)) (np_of vs p (nth k vi' 0%nat)) = true.
 Proof. exact sort_face_vertices_walk. Qed.
 Print Assumptions C15_face_walk_follows_edges.
+
+(* ---- the walk closes up.  Hypothesis `surfaceb` (decidable, evaluated by the extracted model on the duals of every cell whose face lists
+   are compared with the implementation's; counted in the evidence): the planes of every dual triangle are distinct and every directed edge
+   of every triangle occurs exactly once, as does its reverse (a closed oriented surface without repeated edges).  Then in the sorted
+   vertex list of every face each vertex and its CYCLIC successor - including the pair placed by elimination and the pair (last, first) -
+   lie on the face's plane and on one more common plane, the one the walk was looking for: the list is a closed polygon of edges *)
+From MV Require Import Proofs.FaceClose.
+
+Theorem C15_face_walk_closes_up : forall vs p vi', surfaceb (map vd vs) = true ->
+  sort_face_vertices vs p (face_vertex_list vs p) = Some vi' ->
+  forall k, (k < length vi')%nat ->
+  dual_has (vd (nth (nth (S k mod length vi') vi' 0%nat) vs vdefault)) (np_of vs p (nth k vi' 0%nat)) = true /\
+  dual_has (vd (nth (nth k vi' 0%nat) vs vdefault)) (np_of vs p (nth k vi' 0%nat)) = true /\
+  np_of vs p (nth k vi' 0%nat) <> p.
+Proof. exact face_walk_cyclic_adjacent. Qed.
+Print Assumptions C15_face_walk_closes_up.
+
+Theorem C15_surfaceb_means_closed_simple_surface : forall ds, surfaceb ds = true ->
+  Forall ddist ds /\ closed_surface ds /\ simple ds.
+Proof. exact surfaceb_spec. Qed.
+Print Assumptions C15_surfaceb_means_closed_simple_surface.
+
+(* non-vacuity: the duals of the initial box satisfy the hypothesis, and its faces are sorted *)
+Example C15_surfaceb_example : surfaceb init_duals = true /\
+  exists l, sort_face_vertices (map (fun d => mkVertex d hdefault) init_duals) 0 (face_vertex_list (map (fun d => mkVertex d hdefault) init_duals) 0) = Some l /\ length l = 4%nat.
+Proof. split; [vm_compute; reflexivity|]. eexists. split; vm_compute; reflexivity. Qed.
